@@ -7,6 +7,7 @@ import Rtp.Proofs.Obu
 import Rtp.Proofs.AV1Packet
 namespace Rtp.Model.AV1
 open Rtp Rtp.Model Rtp.Spec.Av1Rtp
+open Rtp.Model.ObuLemmas
 namespace FramesRT
 
 /-! ### header bits -/
